@@ -109,7 +109,10 @@ def sbm_cases(draw, tier):
     nmode = draw(st.integers(0, 5))
     dims = _cap_dims([draw(st.integers(1, 5)) for _ in range(nmode)], 2)
     modes = [[draw(st.sampled_from(WG + [3.0])), draw(st.sampled_from(DIS + [-0.4])), dims[i]] for i in range(nmode)]
-    return {"kind": "sbm", "eps": draw(st.sampled_from([0.0, 1.0, -0.4, 0.02])), "delta": draw(st.sampled_from([1.0, 0.3, 0.0, -2.0])),
+    eps, delta = draw(st.sampled_from([0.0, 1.0, -0.4, 0.02])), draw(st.sampled_from([1.0, 0.3, 0.0, -2.0]))
+    if not modes and eps == 0 and delta == 0:
+        delta = 1.0  # an identically zero Hamiltonian is refused by Mpo ("Terms contain nothing")
+    return {"kind": "sbm", "eps": eps, "delta": delta,
             "unit": draw(st.sampled_from(EUNITS)), "modes": modes, "simple_ctor": draw(st.booleans())}
 
 
@@ -191,9 +194,9 @@ UNITS = sorted(U.UNIT_RATIO)
 
 @st.composite
 def quantity_cases(draw, tier):
-    val = draw(st.sampled_from([0.0, 1.0, 300.0, 0.5, -2.0, 1e-3, 12345.6])) if draw(st.booleans()) else draw(st.floats(-1e4, 1e4, allow_nan=False))
+    val = draw(st.sampled_from([0.0, 1.0, 300.0, 0.5, -2.0, 1e-3, 12345.6])) if draw(st.booleans()) else round(draw(st.floats(-1e4, 1e4, allow_nan=False)), 4)
     return {"kind": "quantity", "value": val, "unit": draw(st.sampled_from(UNITS)), "unit2": draw(st.sampled_from(UNITS)),
-            "other": draw(st.floats(-100, 100, allow_nan=False)), "ounit": draw(st.sampled_from(UNITS)),
+            "other": round(draw(st.floats(-100, 100, allow_nan=False)), 4), "ounit": draw(st.sampled_from(UNITS)),
             "scalar": draw(st.sampled_from([2.0, -0.5, 3, 1e-3]))}
 
 
@@ -752,7 +755,7 @@ def run_quantity(spec, r):
     q2, ok = _libcall(r, "quantity.as_unit", lambda: q.as_unit(u2))
     if ok:
         r.check("quantity.as_unit.unit", q2.unit == u2, f"unit {q2.unit}")
-        r.check_close("quantity.as_unit.roundtrip", q2.as_au(), au, 3e-14 * abs(au), "as_unit(u).as_au() == as_au()")
+        r.check_close("quantity.as_unit.roundtrip", q2.as_au(), au, 3e-14 * abs(au) + 1e-300, "as_unit(u).as_au() == as_au()")
         r.check_close("quantity.as_unit.value", q2.value, ref_au * U.UNIT_RATIO[u2], 2e-6 * abs(ref_au * U.UNIT_RATIO[u2]), "value in the new unit")
     if u.lower() == "k":
         beta, ok = _libcall(r, "quantity.to_beta", lambda: q.to_beta())
